@@ -6,6 +6,8 @@
 package simsync
 
 import (
+	"runtime/debug"
+	"time"
 	"sort"
 	"sync"
 	"unsafe"
@@ -21,12 +23,33 @@ type Mutex struct {
 	real   sync.Mutex
 	locked bool
 	owner  int32
+	dbg    []byte
+}
+
+// DebugOwners (diagnosis only): remember who locked a Mutex in passthrough mode and report it
+// when somebody else waits more than 5 seconds.
+var DebugOwners = false
+
+func (m *Mutex) debugLock() {
+	for i := 0; i < 5000; i++ {
+		if m.real.TryLock() {
+			m.dbg = debug.Stack()
+			return
+		}
+		time.Sleep(time.Millisecond)
+	}
+	println("simsync: mutex not released for 5 s; locked by:\n" + string(m.dbg) + "\nwaiter:\n" + string(debug.Stack()))
+	m.real.Lock()
 }
 
 //go:norace
 func (m *Mutex) Lock() {
 	switch simrt.Mode() {
 	case simrt.ModePassthrough:
+		if DebugOwners {
+			m.debugLock()
+			return
+		}
 		m.real.Lock()
 		return
 	case simrt.ModeDying:
